@@ -5,7 +5,7 @@ from __future__ import annotations
 import copy
 import re
 
-from ..core import Ctx, call, require
+from ..core import Ctx, call, fail_unless_known, require
 from ..draw import Draw
 from ..gen import ops as go
 from ..gen import schemas
@@ -38,7 +38,7 @@ LEVEL_TEXT = (
 LEVEL_NOTE = "Trusted: pmverif/ref/marks.py (documented addToSet / exclusion rules), ref/resolve.py for locating nodes, ref/validate.py."
 TECHNIQUE = "property-based testing (Hypothesis) with an exact expected-document oracle from a reference mark algebra"
 BUDGET = {
-    "quick": {"shards": 8, "examples": 1000},
+    "quick": {"shards": 8, "examples": 1600},
     "thorough": {"shards": 16, "examples": 25000},
 }
 
@@ -69,7 +69,9 @@ def generate(R: Draw, tier: str) -> dict:
     g = docgen(rs)
     doc = g.doc(R, R.weighted([("small", 5), ("medium", 2)]))
     focus = None
-    if R.bool(0.35):
+    if sref == "inline_box" and R.bool(0.5):
+        focus = _container_focus(R, g, rs)
+    elif R.bool(0.35):
         focus = _exclusion_focus(R, g, rs, doc)
     elif R.bool(0.2):
         focus = _removal_focus(R, g, rs, doc)
@@ -79,6 +81,49 @@ def generate(R: Draw, tier: str) -> dict:
     node = P.build(lib, doc)
     op = go.gen_op(R, g, lib, node, KINDS, steer=0.8)
     return {"schema": sref, "doc": doc, "op": op}
+
+
+def _container_focus(R: Draw, g, rs):  # noqa: ANN001, ANN202
+    """Inline containers (an inline node holding text): marked text inside the container next to marked text outside
+    it, the container itself marked or not - and one mark operation across all of it."""
+    m = g.mark(R, R.choice(rs.mark_names))
+    other = g.mark(R, R.choice(rs.mark_names))
+
+    def ms(p: float) -> list:
+        cur: list = []
+        if R.bool(p):
+            cur = rm.ref_add(rs, m, cur)
+        if R.bool(0.3):
+            cur = rm.ref_add(rs, other, cur)
+        return cur
+
+    def text(p: float) -> dict:
+        return P.mk("text", {}, None, ms(p), R.choice(["ab", "c", "def"]))
+
+    kids = []
+    for _ in range(R.int(2, 4)):
+        if R.bool(0.5):
+            kids.append(P.mk("chip", {"id": None}, normalize([text(0.7) for _ in range(R.int(1, 2))]), ms(0.5)))
+        else:
+            kids.append(text(0.6))
+    para = P.mk("paragraph", {}, normalize(kids))
+    doc = P.mk("doc", {}, [P.mk("paragraph", {}, [P.mk("text", {}, None, [], "x")]), para])
+    if V.node_problems(rs, doc):
+        return None
+    n = P.size_of(doc["c"], rs.leaf_types)
+    a = R.int(3, min(n, 6))
+    b = R.int(max(a, n - 4), n)
+    k = R.weighted([("remove_mark", 5), ("add_mark", 3)])
+    if k == "add_mark":
+        return doc, {"op": "add_mark", "from": a, "to": b, "mark": m}
+    how = R.weighted([("type", 4), ("all", 3), ("mark", 3)])
+    return doc, {"op": "remove_mark", "from": a, "to": b, "mark": m if how == "mark" else None, "type": m[0] if how == "type" else None}
+
+
+def normalize(kids: list) -> list:
+    from ..gen.mutate import normalize_children
+
+    return normalize_children(kids)
 
 
 def _removal_focus(R: Draw, g, rs, doc: dict):  # noqa: ANN001, ANN202
@@ -185,9 +230,13 @@ def _exclusion_focus(R: Draw, g, rs, doc: dict):  # noqa: ANN001, ANN202
 # ------------------------------------------------------------------ expected documents
 
 
-def _map_inline(rs, node: dict, start: int, frm: int, to: int, fn) -> dict:  # noqa: ANN001
+def _map_inline(rs, node: dict, start: int, frm: int, to: int, fn, inside=None, cont_fn=None) -> dict:  # noqa: ANN001
     """Rebuild node applying fn(parent_type, marks) -> marks to inline tokens in [frm,to); splits text as needed.
-    `start` = absolute position of node's content start."""
+    `start` = absolute position of node's content start.  An inline node WITH content is one unit for marks: its own
+    marks go through cont_fn (default fn) when the range covers it, and - the statement leaves that open - when the
+    range only cuts into it and `inside` (a set of such nodes' positions) names it."""
+    inside = inside or set()
+    cont_fn = cont_fn or fn
     out = []
     pos = start
     for c in node["c"]:
@@ -219,11 +268,27 @@ def _map_inline(rs, node: dict, start: int, frm: int, to: int, fn) -> dict:  # n
         else:
             size = P.size_of([c], rs.leaf_types)
             if pos < to and pos + size > frm:
-                out.append(_map_inline(rs, c, pos + 1, frm, to, fn))
+                inner = _map_inline(rs, c, pos + 1, frm, to, fn, inside, cont_fn)
+                if rs.inline[c["t"]]:
+                    covered = frm <= pos and pos + size <= to
+                    if covered or pos in inside:
+                        inner = {**inner, "m": cont_fn(node["t"], c["m"])}
+                out.append(inner)
             else:
                 out.append(c)
             pos += size
     return {**node, "c": normalize_children(out)}
+
+
+def _cut_containers(rs, doc: dict, frm: int, to: int) -> list[int]:  # noqa: ANN001
+    """Positions of inline nodes with content that the range cuts into without covering them."""
+    out = []
+    for k_, s_, _par, _i, _d in RR.all_nodes(RR.N(doc, rs)):
+        if k_.is_text or rs.leaf[k_.t] or not rs.inline[k_.t]:
+            continue
+        if s_ < to and s_ + k_.size > frm and not (frm <= s_ and s_ + k_.size <= to):
+            out.append(s_)
+    return out
 
 
 class MidSurrogate(Exception):
@@ -296,20 +361,29 @@ def _set_block_type(rs, doc: dict, frm: int, to: int, t: str, attrs: dict) -> di
     return walk(doc, 0)
 
 
-def expected(rs, doc: dict, op: dict):  # noqa: ANN001, ANN201
-    """Expected document (plain), or ("reject-ok",) when a refusal is acceptable, or None when nothing exact is claimed."""
+def expected(rs, doc: dict, op: dict, inside=None, displace_only: bool = False):  # noqa: ANN001, ANN201
+    """Expected document (plain), or ("reject-ok",) when a refusal is acceptable, or None when nothing exact is claimed.
+    `inside`: positions of inline containers the range only cuts into that count as inside the range;
+    `displace_only`: inline containers lose the marks the new mark excludes but do not get the mark (known finding)."""
     k = op["op"]
     if k == "add_mark":
         m = op["mark"]
-        return _map_inline(rs, doc, 0, op["from"], op["to"], lambda parent, ms: rm.ref_add(rs, m, ms) if rs.allows_mark(parent, m[0]) else ms)
+        def add(parent: str, ms: list) -> list:
+            return rm.ref_add(rs, m, ms) if rs.allows_mark(parent, m[0]) else ms
+
+        def displace(parent: str, ms: list) -> list:
+            new = add(parent, ms)
+            return [x for x in ms if rm.in_set(x, new)]
+
+        return _map_inline(rs, doc, 0, op["from"], op["to"], add, inside, displace if displace_only else None)
     if k == "remove_mark":
         if op.get("mark") is not None:
             m = op["mark"]
-            return _map_inline(rs, doc, 0, op["from"], op["to"], lambda parent, ms: rm.ref_remove(m, ms))
+            return _map_inline(rs, doc, 0, op["from"], op["to"], lambda parent, ms: rm.ref_remove(m, ms), inside)
         if op.get("type") is not None:
             t = op["type"]
-            return _map_inline(rs, doc, 0, op["from"], op["to"], lambda parent, ms: rm.ref_remove_type(t, ms))
-        return _map_inline(rs, doc, 0, op["from"], op["to"], lambda parent, ms: [])
+            return _map_inline(rs, doc, 0, op["from"], op["to"], lambda parent, ms: rm.ref_remove_type(t, ms), inside)
+        return _map_inline(rs, doc, 0, op["from"], op["to"], lambda parent, ms: [], inside)
     if k in ("add_node_mark", "remove_node_mark"):
         def fn(n: dict) -> dict:
             if k == "add_node_mark":
@@ -450,6 +524,28 @@ def check(case: dict, ctx: Ctx) -> None:
                 ctx.label("set_node_markup:leaf-adapted-by-fitter")
                 return
             require(False, "set_node_markup:accepted-invalid", f"set_node_markup accepted a change that yields {V.node_problems(rs, exp)[:1]}")
+    if got != exp and k in ("add_mark", "remove_mark"):
+        import itertools
+
+        cut = _cut_containers(rs, doc_p, op["from"], op["to"])[:4]
+        subsets = [set(c) for r in range(len(cut) + 1) for c in itertools.combinations(cut, r)]
+        for sub_ in subsets[1:]:
+            alt = expected(rs, doc_p, op, inside=sub_)
+            if got == alt:
+                ctx.label("inline-container:cut-by-range-counts-as-inside")
+                exp = alt
+                break
+        if got != exp and k == "add_mark":
+            for sub_ in subsets:
+                bare = expected(rs, doc_p, op, inside=sub_, displace_only=True)
+                if got == bare:
+                    # everything is as stated except that inline nodes WITH content inside the range did not get the mark
+                    fail_unless_known(
+                        ctx, ID, "add_mark:wrong-effect", {"mode": "c13", "schema": case["schema"], "doc": doc_p, "op": op},
+                        f"add_mark {op['from']}..{op['to']} {op['mark']}: an inline node with content inside the range does not carry the mark: got {got['c']}, expected {exp['c']}",
+                    )
+                    exp = bare
+                    break
     require(got == exp, f"{k}:wrong-effect", f"{k} {({x: y for x, y in op.items() if x != 'op'})}: got {got['c']}, expected {exp['c']}" if k != "set_doc_attribute" else f"doc attrs {got['a']} expected {exp['a']}")
     # structure tokens identical for mark operations
     if k in ("add_mark", "remove_mark", "add_node_mark", "remove_node_mark"):
